@@ -309,6 +309,16 @@ func (st *State) script(goal string) string {
 }
 
 func (st *State) check(kind, label, prop, src, where, goal string) {
+	if kind == "nopanic" && goal != "false" && goal != "true" {
+		if st.vf.fc != nil && st.vf.fc.Flags["recovered"] {
+			// the handler runs under a panic-recovery interceptor: a panic is contained and reported to the caller;
+			// it is a violation only if a lock would be left held (no deferred unlock covers it)
+			goal = or(goal, st.locksCoveredByDefers())
+		}
+	}
+	if st.facts[goal] {
+		goal = "true" // already established on this path
+	}
 	if goal == "true" {
 		// trivially true: still count it (discharged syntactically)
 		st.vf.obligs = append(st.vf.obligs, &Oblig{Func: shortFuncName(st.vf.key), Kind: kind, Label: label, Prop: prop, Src: src, Where: where, Goal: goal, Trail: strings.Join(st.trail, " "), Res: SolverResult{Status: "unsat", Solver: "syntactic"}})
@@ -318,6 +328,41 @@ func (st *State) check(kind, label, prop, src, where, goal string) {
 	o.Script = st.script(goal)
 	st.vf.obligs = append(st.vf.obligs, o)
 	st.assume(goal)
+	if st.facts == nil {
+		st.facts = map[string]bool{}
+	}
+	st.facts[goal] = true
+}
+
+// locksCoveredByDefers: every mutex acquired on this path is either free now or has a matching deferred
+// Unlock/RUnlock pending in the top frame (so a panic here releases it while unwinding).
+func (st *State) locksCoveredByDefers() string {
+	fr := st.frames[0]
+	deferred := map[string]bool{}
+	for _, f := range st.frames {
+		for _, d := range f.defers {
+			if d.call.Call.IsInvoke() {
+				continue
+			}
+			if fn, ok := d.call.Call.Value.(*ssa.Function); ok && len(d.args) > 0 {
+				switch fn.String() {
+				case "(*sync.Mutex).Unlock", "(*sync.RWMutex).Unlock", "(*sync.RWMutex).RUnlock":
+					deferred[d.args[0].Tm] = true
+				}
+			}
+		}
+	}
+	_ = fr
+	var cs []string
+	seen := map[string]bool{}
+	for _, l := range st.locked {
+		if seen[l.addr] || deferred[l.addr] {
+			continue
+		}
+		seen[l.addr] = true
+		cs = append(cs, and(not(sel(st.heapGet("L:w", "(Array Int Bool)"), l.addr)), eq(sel(st.heapGet("L:r", "(Array Int Int)"), l.addr), "0")))
+	}
+	return and(cs...)
 }
 
 func (st *State) pos(in ssa.Instruction) string {
@@ -738,7 +783,9 @@ func (vf *VerifyFunc) havocLoop(st *State, fr *Frame, body map[*ssa.BasicBlock]b
 				keys[dk] = true
 				keys[vk] = true
 				keys[lk] = true
-			case *ssa.Call, *ssa.Defer, *ssa.Go:
+			case *ssa.Go:
+				// effects of a spawned goroutine are not part of the sequential model (stated in evidence)
+			case *ssa.Call, *ssa.Defer:
 				cc := in.(ssa.CallInstruction).Common()
 				eff := vf.eng.callEffect(cc)
 				switch eff.kind {
@@ -916,7 +963,9 @@ func (vf *VerifyFunc) step(st *State, fr *Frame, in ssa.Instruction) bool {
 		fr.idx++
 		return true
 	case *ssa.Go:
-		// goroutine body not analysed at the site; arguments escape
+		// goroutine body not analysed at the site (it is verified on its own under its contract); the spawning
+		// site must establish the callee's preconditions with the argument values it passes
+		vf.goSite(st, fr, x)
 		fr.idx++
 		return true
 	case *ssa.Call:
